@@ -23,7 +23,7 @@ a broken tie, never by itself a violation).
 import ast
 import re
 
-KERNELS = ["set_intersect_merge_np", "set_union_merge_np", "set_difference_merge_np"]
+KERNELS = ["set_intersect_merge_np", "set_union_merge_np", "set_difference_merge_np", "set_union_merge_many"]
 
 
 class Unsupported(Exception):
@@ -70,6 +70,8 @@ def to_python(src):
             for a in SIG.finditer(args):
                 types[fn][a.group(1)] = "view"
             args = SIG.sub(lambda a: a.group(1), args)
+            for a in re.finditer(r"\blist\s+(\w+)", args):
+                types[fn][a.group(1)] = "list"
             args = re.sub(r"\blist\s+(\w+)", r"\1", args)
             lines.append("def %s(%s):" % (fn, args))
             continue
@@ -140,6 +142,17 @@ class Kernel:
         self.loops = []        # generated loop definitions (text), in source order
         self.fresh = 0
         self.order = []        # variables in order of first definition
+        self.lists = set()     # Python lists of arrays
+        self.finished = []     # loop definitions in order of completion (inner loops first)
+        self.needs_fuel = False
+        # C integers that are assigned a negative literal somewhere (a `-1` sentinel): modelled in Z
+        self.int_vars = set()
+        for n in ast.walk(fn):
+            if isinstance(n, ast.Assign) and len(n.targets) == 1 and isinstance(n.targets[0], ast.Name) \
+                    and isinstance(n.value, ast.UnaryOp) and isinstance(n.value.op, ast.USub):
+                self.int_vars.add(n.targets[0].id)
+        self.arrays = set(a.arg for a in fn.args.args if ctypes.get(a.arg) != "list")
+        self.lists = set(a.arg for a in fn.args.args if ctypes.get(a.arg) == "list")
 
     # -- helpers --------------------------------------------------------------------------------------------------
     def canon(self, n):
@@ -164,6 +177,9 @@ class Kernel:
             if e.value < 0:
                 raise Unsupported("negative literal in a kernel modelled over N")
             return str(e.value)
+        if isinstance(e, ast.UnaryOp) and isinstance(e.op, ast.USub) and isinstance(e.operand, ast.Constant) \
+                and isinstance(e.operand.value, int):
+            return "(-%d : Int)" % e.operand.value
         if isinstance(e, ast.Name):
             n = self.canon(e.id)
             if n not in env:
@@ -181,6 +197,8 @@ class Kernel:
                 and isinstance(e.value.value, ast.Name) and isinstance(e.slice, ast.Constant) and e.slice.value == 0):
             return "%s.size" % self.pure_expr(e.value.value, env)
         if isinstance(e, ast.Call) and isinstance(e.func, ast.Name) and e.func.id == "len" and len(e.args) == 1:
+            if isinstance(e.args[0], ast.Name) and self.canon(e.args[0].id) in self.lists:
+                return "%s.length" % self.pure_expr(e.args[0], env)
             return "%s.size" % self.pure_expr(e.args[0], env)
         raise Unsupported("%s: expression %s" % (self.name, ast.dump(e)))
 
@@ -280,6 +298,33 @@ class Kernel:
                                                                   self.block(rest, self.define(env, arr, nv), loop))
                 # Cython evaluates the right-hand side, then the index
                 return self.with_reads(v, env, lambda val: self.with_reads(t.slice, env, lambda ix: after(ix, val)))
+        if isinstance(s, ast.For) and isinstance(s.target, ast.Name) and isinstance(s.iter, ast.Call) \
+                and isinstance(s.iter.func, ast.Name) and s.iter.func.id == "range" and len(s.iter.args) == 1 and not s.orelse:
+            # for v in range(n): BODY   ==   v = 0; while v < n: BODY; v += 1   (a `continue` steps v first)
+            v = s.target.id
+            step = ast.AugAssign(target=ast.Name(id=v, ctx=ast.Store()), op=ast.Add(), value=ast.Constant(value=1))
+
+            class Cont(ast.NodeTransformer):
+                def visit_Continue(self, node):
+                    return [step, node]
+
+                def visit_For(self, node):      # a nested loop owns its own continues
+                    return node
+
+                def visit_While(self, node):
+                    return node
+            body = [Cont().visit(x) for x in s.body]
+            flat = []
+            for x in body:
+                flat.extend(x if isinstance(x, list) else [x])
+            w = ast.While(test=ast.Compare(left=ast.Name(id=v, ctx=ast.Load()), ops=[ast.Lt()], comparators=[s.iter.args[0]]),
+                          body=flat + [step], orelse=[])
+            init = ast.Assign(targets=[ast.Name(id=v, ctx=ast.Store())], value=ast.Constant(value=0))
+            for node in (w, init):
+                ast.fix_missing_locations(node)
+                node.lineno = s.lineno
+            w.lineno = s.lineno
+            return self.block([init, w] + rest, env, loop)
         if isinstance(s, ast.While):
             if s.orelse:
                 raise Unsupported("while/else")
@@ -300,6 +345,33 @@ class Kernel:
             return self.block(rest, env, loop)
         if isinstance(v, ast.Name) and self.canon(v.id) in self.arrays:
             raise Unsupported("%s: array %s bound to a second name %s" % (self.name, v.id, name))
+        u = ast.unparse(v)
+        # the NumPy prelude of the k-way kernel, statement by statement
+        m = re.match(r"^\[(\w+) for \1 in (\w+) if len\(\1\)\]$", u)
+        if m and self.canon(m.group(2)) in self.lists:
+            self.lists.add(name)
+            return self.block(rest, self.define(env, name, "(%s.filter fun a => a.size ≠ 0)" % env[self.canon(m.group(2))]), loop)
+        m = re.match(r"^numpy\.concatenate\((\w+)\)$", u)
+        if m and self.canon(m.group(1)) in self.lists:
+            self.arrays.add(name)
+            return self.block(rest, self.define(env, name, "(concatAll %s)" % env[self.canon(m.group(1))]), loop)
+        m = re.match(r"^numpy\.array\(\[(\w+)\.shape\[0\] for \1 in (\w+)\], dtype=int\)$", u)
+        if m and self.canon(m.group(2)) in self.lists:
+            self.arrays.add(name)
+            return self.block(rest, self.define(env, name, "(%s.map fun a => a.size).toArray" % env[self.canon(m.group(2))]), loop)
+        m = re.match(r"^numpy\.cumsum\((\w+)\)$", u)
+        if m and self.canon(m.group(1)) in self.arrays:
+            self.arrays.add(name)
+            return self.block(rest, self.define(env, name, "(cumsumArr %s)" % env[self.canon(m.group(1))]), loop)
+        m = re.match(r"^(\w+) - (\w+)$", u)
+        if m and self.canon(m.group(1)) in self.arrays and self.canon(m.group(2)) in self.arrays:
+            self.arrays.add(name)
+            return self.block(rest, self.define(env, name, "(zipSub %s %s)" % (env[self.canon(m.group(1))], env[self.canon(m.group(2))])), loop)
+        if name in self.int_vars:
+            # a C integer with a -1 sentinel lives in Z: a natural assigned to it is cast
+            if isinstance(v, ast.UnaryOp) or (isinstance(v, ast.Name) and self.canon(v.id) in self.int_vars):
+                return self.block(rest, self.define(env, name, self.pure_expr(v, env)), loop)
+            return self.with_reads(v, env, lambda val: self.block(rest, self.define(env, name, "(Int.ofNat %s)" % val), loop))
         return self.with_reads(v, env, lambda val: self.block(rest, self.define(env, name, val), loop))
 
     def check_uint32(self, call):
@@ -362,13 +434,15 @@ class Kernel:
             raise Unsupported("%s: no termination measure for the loop at line %d" % (self.name, s.lineno))
         return " + ".join(terms)
 
+    def ty(self, v):
+        return "Array Nat" if v in self.arrays else "Int" if v in self.int_vars else "Nat"
+
     def loop(self, s, rest, env, outer):
         assigned = set(self.canon(n) for n in assigned_in(s.body))
         used = set(self.canon(n) for n in names_in([s.test] + s.body))
+        # variables that have no value before the loop are locals of one iteration (assigned before they are read, or the
+        # translation fails with "read before it is assigned")
         params = [v for v in self.order if v in env and (v in used or v in assigned)]
-        undefined = [v for v in sorted(assigned) if v not in env]
-        if undefined:
-            raise Unsupported("%s: loop assigns %s which has no value before the loop" % (self.name, undefined))
         live = set(self.canon(n) for n in names_in(rest))
         if outer is not None:
             live |= set(outer[1])
@@ -378,31 +452,49 @@ class Kernel:
         lname = "%s.loop%d" % (self.name, len(self.loops) + 1)
         self.loops.append(None)
         slot = len(self.loops) - 1
-        me = (lname, params, outs)
+        try:
+            measure = self.measure(s)
+        except Unsupported:
+            if not (isinstance(s.test, ast.Constant) and s.test.value in (1, True)):
+                raise
+            measure = None           # `while 1:` without a visible bound: the loop gets FUEL, running out of it is an error
+            self.needs_fuel = True
+        me = (lname + (" fuel" if measure is None else ""), params, outs)
         inner_env = {p: p for p in params}
         body = self.cond(s.test, inner_env, lambda: self.block(list(s.body), inner_env, me), lambda: self.leave(inner_env, me))
-        sig = " ".join("(%s : %s)" % (p, "Array Nat" if p in self.arrays else "Nat") for p in params)
-        rty = " × ".join("Array Nat" if o in self.arrays else "Nat" for o in outs)
-        self.loops[slot] = ("/-- the loop at line %d of `%s`; returns (%s) -/\ndef %s %s : M (%s) :=\n%s\ntermination_by %s\n"
-                            "decreasing_by all_goals (simp_wf; omega)\n" % (
-                                s.lineno, self.name, ", ".join(outs), lname, sig, rty, body, self.measure(s)))
+        sig = " ".join("(%s : %s)" % (p, self.ty(p)) for p in params)
+        rty = " × ".join(self.ty(o) for o in outs)
+        if measure is None:
+            self.loops[slot] = ("/-- the loop at line %d of `%s` (no bound visible in the source: `fuel` rounds at most); returns (%s) -/\n"
+                                "def %s (fuel : Nat) %s : M (%s) :=\nmatch fuel with\n| 0 => throw (.value \"%s: out of fuel\")\n| fuel + 1 =>\n%s\n" % (
+                                    s.lineno, self.name, ", ".join(outs), lname, sig, rty, self.name, body))
+            call = "%s fuel" % lname
+            self.finished.append(self.loops[slot])
+        else:
+            self.loops[slot] = ("/-- the loop at line %d of `%s`; returns (%s) -/\ndef %s %s : M (%s) :=\n%s\ntermination_by %s\n"
+                                "decreasing_by all_goals (simp_wf; omega)\n" % (
+                                    s.lineno, self.name, ", ".join(outs), lname, sig, rty, body, measure))
+            call = lname
+            self.finished.append(self.loops[slot])
         r = self.new("r")
         env2 = dict(env)
         for i, o in enumerate(outs):
             env2[o] = self.proj(r, i, len(outs))
-        return "(%s %s >>= fun %s =>\n%s)" % (lname, " ".join(env[p] for p in params), r, self.block(rest, env2, outer))
+        return "(%s %s >>= fun %s =>\n%s)" % (call, " ".join(env[p] for p in params), r, self.block(rest, env2, outer))
 
     def run(self):
         env = {}
         for a in self.fn.args.args:
-            if self.ctypes.get(a.arg) != "view":
-                raise Unsupported("%s: argument %s is not a typed memoryview" % (self.name, a.arg))
+            if self.ctypes.get(a.arg) not in ("view", "list"):
+                raise Unsupported("%s: argument %s is neither a typed memoryview nor a list" % (self.name, a.arg))
             env = self.define(env, a.arg, a.arg)
         body = self.block(list(self.fn.body), env, None)
-        args = " ".join(a.arg for a in self.fn.args.args)
-        main = ("/-- `%s(%s)` of set_operations.pyx, every memory access checked -/\ndef %s (junk : Nat → Nat) (%s : Array Nat) : "
-                "M (Array Nat) :=\n%s\n" % (self.name, ", ".join(a.arg for a in self.fn.args.args), self.name, args, body))
-        return "\n".join(self.loops) + "\n" + main
+        args = " ".join("(%s : %s)" % (a.arg, "List (Array Nat)" if self.ctypes.get(a.arg) == "list" else "Array Nat")
+                        for a in self.fn.args.args)
+        main = ("/-- `%s(%s)` of set_operations.pyx, every memory access checked -/\ndef %s (junk : Nat → Nat) %s%s : "
+                "M (Array Nat) :=\n%s\n" % (self.name, ", ".join(a.arg for a in self.fn.args.args), self.name,
+                                             "(fuel : Nat) " if self.needs_fuel else "", args, body))
+        return "\n".join(self.finished) + "\n" + main
 
 
 def indent(text):
